@@ -744,7 +744,11 @@ class Remoter(tyming.Tymee):
         Service receives until no more
         """
         while not self.cutoff:
-            data = self.receive()
+            try:
+                data = self.receive()
+            except BrokenPipeError:  # EPIPE so far side gone, .receive still raises
+                self.cutoff = True
+                break
             if not data:
                 break
             self.rxbs.extend(data)
@@ -755,7 +759,11 @@ class Remoter(tyming.Tymee):
         Retrieve from server only one reception
         '''
         if not self.cutoff:
-            data = self.receive()
+            try:
+                data = self.receive()
+            except BrokenPipeError:  # EPIPE so far side gone, .receive still raises
+                self.cutoff = True
+                data = None
             if data:
                 self.rxbs.extend(data)
 
@@ -819,7 +827,11 @@ class Remoter(tyming.Tymee):
         If partial send reattach and return
         """
         while self.txbs and not self.cutoff:
-            count = self.send(self.txbs)
+            try:
+                count = self.send(self.txbs)
+            except BrokenPipeError:  # EPIPE so far side gone, .send still raises
+                self.cutoff = True
+                break
             del self.txbs[:count]
             break  # try again later
 
